@@ -143,6 +143,92 @@ Proof.
   intros o e H. rewrite H2, H. apply dir_after_out.
 Qed.
 
+(* ------------------------------------------------------------------ file names *)
+(* paths of one function are solved concurrently in one directory: distinct (path id, refined)
+   pairs get distinct query files, and a query file is never another path's .out / .err *)
+Lemma digit_char_is_digit : forall d, 0 <= d < 10 -> is_digit (digit_char d) = true.
+Proof.
+  intros d Hd.
+  assert (H : In d [0;1;2;3;4;5;6;7;8;9]) by (simpl; lia).
+  simpl in H.
+  repeat (destruct H as [<-|H]; [vm_compute; reflexivity|]). contradiction.
+Qed.
+
+Lemma all_digits_app : forall a b, all_digits (a ++ b) = all_digits a && all_digits b.
+Proof. induction a as [|x a IH]; intros b; simpl; [reflexivity | now rewrite IH, andb_assoc]. Qed.
+
+Lemma print_dec_go_digits : forall f n, 0 <= n -> all_digits (print_dec_go f n) = true.
+Proof.
+  induction f as [|f IH]; intros n Hn; [reflexivity|].
+  cbn [print_dec_go]. destruct (n =? 0); [reflexivity|].
+  rewrite all_digits_app, IH by (apply Z.div_pos; lia). simpl.
+  rewrite digit_char_is_digit by (apply Z.mod_pos_bound; lia). reflexivity.
+Qed.
+
+Lemma print_dec_digits : forall n, 0 <= n -> all_digits (print_dec n) = true.
+Proof.
+  intros n Hn. unfold print_dec. destruct (n =? 0); [reflexivity | apply print_dec_go_digits; exact Hn].
+Qed.
+
+Lemma print_dec_inj : forall a b, 0 <= a -> 0 <= b -> print_dec a = print_dec b -> a = b.
+Proof.
+  intros a b Ha Hb H. apply (f_equal (py_int 10)) in H.
+  rewrite !py_int_print_dec in H by assumption. now inversion H.
+Qed.
+
+Definition nondigit_head (t : string) : Prop :=
+  match t with String ch _ => is_digit ch = false | EmptyString => False end.
+
+(* a run of digits followed by something that starts with a non-digit splits uniquely *)
+Lemma digits_split : forall a b t1 t2,
+  all_digits a = true -> all_digits b = true -> nondigit_head t1 -> nondigit_head t2 ->
+  (a ++ t1)%string = (b ++ t2)%string -> a = b /\ t1 = t2.
+Proof.
+  induction a as [|x a IH]; intros b t1 t2 Ha Hb H1 H2 H.
+  - destruct b as [|y b]; [split; [reflexivity | exact H]|].
+    simpl in H. destruct t1 as [|ch t1]; [contradiction|]. inversion H; subst.
+    simpl in H1, Hb. apply andb_true_iff in Hb. destruct Hb as [Hy _]. congruence.
+  - destruct b as [|y b].
+    + simpl in H. destruct t2 as [|ch t2]; [contradiction|]. inversion H; subst.
+      simpl in H2, Ha. apply andb_true_iff in Ha. destruct Ha as [Hx _]. congruence.
+    + simpl in H. inversion H; subst. simpl in Ha, Hb.
+      apply andb_true_iff in Ha. apply andb_true_iff in Hb.
+      destruct (IH b t1 t2) as [-> ->]; try tauto; try (split; reflexivity).
+Qed.
+
+Definition name_tail (r : bool) : string :=
+  ((if r then gen_refined_infix else gen_plain_infix) ++ gen_query_ext)%string.
+
+Lemma dump_name_split : forall c, dump_name c = (print_dec (path_id c) ++ name_tail (refined c))%string.
+Proof. reflexivity. Qed.
+
+Lemma name_tail_head : forall r sfx, nondigit_head (name_tail r ++ sfx).
+Proof. intros [|] sfx; vm_compute; reflexivity. Qed.
+
+Lemma dump_name_inj : forall c1 c2, 0 <= path_id c1 -> 0 <= path_id c2 ->
+  dump_name c1 = dump_name c2 -> path_id c1 = path_id c2 /\ refined c1 = refined c2.
+Proof.
+  intros c1 c2 H1 H2 H. rewrite !dump_name_split in H.
+  rewrite <- (app_nil_r_s (name_tail (refined c1))), <- (app_nil_r_s (name_tail (refined c2))) in H.
+  apply digits_split in H; try apply print_dec_digits; try apply name_tail_head; try assumption.
+  destruct H as [Hn Ht]. split; [apply print_dec_inj; assumption|].
+  destruct (refined c1), (refined c2); try reflexivity; vm_compute in Ht; discriminate.
+Qed.
+
+Lemma app_assoc_s : forall a b c : string, ((a ++ b) ++ c)%string = (a ++ (b ++ c))%string.
+Proof. induction a as [|x a IH]; intros; simpl; [reflexivity | now rewrite IH]. Qed.
+
+Lemma dump_name_not_output : forall c1 c2 sfx, 0 <= path_id c1 -> 0 <= path_id c2 ->
+  sfx = ".out"%string \/ sfx = ".err"%string ->
+  dump_name c1 <> (dump_name c2 ++ sfx)%string.
+Proof.
+  intros c1 c2 sfx H1 H2 Hs H. rewrite !dump_name_split, app_assoc_s in H.
+  rewrite <- (app_nil_r_s (name_tail (refined c1))) in H.
+  apply digits_split in H; try apply print_dec_digits; try apply name_tail_head; try assumption.
+  destruct H as [_ Ht].
+  destruct Hs as [-> | ->]; destruct (refined c1), (refined c2); vm_compute in Ht; discriminate.
+Qed.
+
 (* ------------------------------------------------------------------ solve_end_to_end *)
 Definition refine_changes (rf : string -> string) (c : pctx) : bool :=
   negb (String.eqb (rf (smtlib c)) (smtlib c)).
